@@ -12,9 +12,17 @@ Fig55 ==   \* the 8-state game of the repository's fixtures (figure 5.5), in spe
                <<Tr("", 1, 5)>>, <<Tr("", 1, 6)>>, <<Tr("", 1, 7)>> >>,
      final |-> <<6>>]
 
+\* a chance state and a player state with the same single successor (written (1, k) and ("go", k)):
+\* the malformation "action is the int 1" makes the two rows equal as Python values
+RowTwin ==
+    [n |-> 5, owner |-> <<PR, PR, P1, PR, PR>>, reward |-> <<0, 1, 2, 0, 0>>,
+     tr |-> << <<Tr("", 1, 2), Tr("", 1, 3)>>, <<Tr("", 1, 5)>>, <<Tr("go", 0, 5)>>,
+               <<Tr("", 1, 4)>>, <<Tr("", 1, 5)>> >>,
+     final |-> <<5>>]
+
 BasesRaw == [i \in 1..K |-> TLCEval(StopGame(3 + (i % 3)))]
 \* solvable in both modes: stopping, initial state of positive value
-Bases == <<Fig55>> \o SelectSeq(BasesRaw, LAMBDA g : IsStopping(g) /\ 1 \notin ZeroSet(g))
+Bases == <<Fig55, RowTwin>> \o SelectSeq(BasesRaw, LAMBDA g : IsStopping(g) /\ 1 \notin ZeroSet(g))
 
 CasesOf(g) == LET q == SetToSeq(Malformations(g))
               IN  [i \in DOMAIN q |-> [rule |-> q[i].rule, where |-> q[i].where, tg |-> q[i].tg, base |-> g]]
